@@ -396,10 +396,122 @@ pub fn c07_e2e_case(bytes: &[u8], stats: &mut Stats, counting: bool) -> Verdict 
     }
 }
 
+/// End to end, several pairs in ONE execution: 2-5 starting vertices, each holding its own (left, right) pair for the same
+/// operator in two of its properties; the right operand is a tag from the same vertex. The verdict for a pair must not
+/// depend on the pairs evaluated before it (e.g. through a cached compiled pattern).
+pub fn c07_e2e_sequence_case(bytes: &[u8], stats: &mut Stats, counting: bool) -> Verdict {
+    let mut c = Choices::new(bytes);
+    let (op, l0, r0) = gen_direct(&mut c);
+    if op.is_unary() {
+        return Verdict::Discard("unary".into());
+    }
+    let Some((lp, rp)) = e2e_props(op, &l0, &r0) else { return Verdict::Discard("no-props".into()) };
+    let schema = e2e_schema();
+    let lty = schema.field("T", lp).unwrap().ty.clone();
+    let rty = schema.field("T", rp).unwrap().ty.clone();
+    let mut pairs: Vec<(Value, Value)> = vec![(l0, r0)];
+    let n = 1 + c.below(4);
+    for _ in 0..n * 5 {
+        if pairs.len() > n {
+            break;
+        }
+        // further pairs for the same operator: fresh draws that fit the same two properties, or recombinations
+        let (op2, l, r) = gen_direct(&mut c);
+        let (l, r) = match c.below(4) {
+            0 => (pairs[0].0.clone(), r),
+            1 => (l, pairs[0].1.clone()),
+            2 => (pairs[pairs.len() - 1].1.clone(), pairs[0].0.clone()),
+            _ => (l, r),
+        };
+        let _ = op2;
+        if lty.valid(&l) && rty.valid(&r) && apply_op(op, &l, &r).is_some() {
+            pairs.push((l, r));
+        }
+    }
+    pairs.retain(|(l, r)| lty.valid(l) && rty.valid(r) && apply_op(op, l, r).is_some());
+    if pairs.len() < 2 {
+        return Verdict::Discard("fewer-than-two-fitting-pairs".into());
+    }
+    // a property that is neither operand identifies the vertex in the output
+    let id_prop = if lp != "i" && rp != "i" && lp != "i2" && rp != "i2" { "i" } else { "s" };
+    let vertices: Vec<VertexData> = pairs
+        .iter()
+        .enumerate()
+        .map(|(k, (l, r))| {
+            let mut props: BTreeMap<String, Value> = schema.properties("T").iter().map(|p| (p.name.clone(), Value::Null)).collect();
+            props.insert(lp.to_string(), l.clone());
+            props.insert(rp.to_string(), r.clone());
+            props.insert(id_prop.to_string(), if id_prop == "i" { Value::int(k as i128) } else { Value::str(&format!("v{k}")) });
+            VertexData { ty: "T".into(), props, edges: BTreeMap::new() }
+        })
+        .collect();
+    let body = vec![
+        Sel::Prop(PropSel { name: rp.into(), tags: vec![Some("t".into())], ..Default::default() }),
+        Sel::Prop(PropSel { name: lp.into(), filters: vec![Filter { op, arg: Some(Arg::Tag("t".into())) }], ..Default::default() }),
+        Sel::Prop(PropSel { name: id_prop.into(), outputs: vec![Some("o".into())], ..Default::default() }),
+    ];
+    let query = Query { root: EdgeSel { name: "Start".into(), body, ..Default::default() } };
+    let ann = annotate(&schema, &query);
+    if !ann.errors.is_empty() {
+        return Verdict::HarnessBug(format!("e2e sequence query does not annotate: {:?}", ann.errors));
+    }
+    let want: Vec<usize> = pairs.iter().enumerate().filter(|(_, (l, r))| apply_op(op, l, r) == Some(true)).map(|(k, _)| k).collect();
+    let sdl = schema.render();
+    let text = query.render();
+    let eschema = match engine::parse_schema(&sdl) {
+        Ok(Ok(s)) => s,
+        other => return Verdict::HarnessBug(format!("fixed schema rejected: {other:?}")),
+    };
+    let iq = match engine::compile(&eschema, &text) {
+        engine::CompileOutcome::Ok(iq) => iq,
+        engine::CompileOutcome::Err(e) => return Verdict::Discard(format!("frontend-rejected:{}", e.split('(').next().unwrap_or(""))),
+        engine::CompileOutcome::Panic(_) => return Verdict::Discard("frontend-panic(C10)".into()),
+    };
+    let mut entry = BTreeMap::new();
+    entry.insert("Start".to_string(), (0..vertices.len() as u32).collect::<Vec<u32>>());
+    let world = Arc::new(World { schema, data: Dataset { vertices, entry } });
+    let out = engine::execute(Arc::new(GraphAdapter::new(world)), iq, engine::args_to_engine(&BTreeMap::new()), 100);
+    if counting {
+        stats.label("e2e:sequence_of_pairs_in_one_execution");
+        stats.label(&format!("op:{}", op.name()));
+        if stats.nontrivial(format!("seq{}{pairs:?}", op.name()).as_bytes()) {
+            stats.sample(|| json!({"query": text, "pairs": pairs.iter().map(|(l, r)| json!([l.to_json(), r.to_json()])).collect::<Vec<_>>(), "expected_kept": want}));
+        }
+    }
+    match out {
+        ExecOutcome::Budget => Verdict::HarnessBug("tiny world exhausted the work budget".into()),
+        ExecOutcome::Rows(rows) => {
+            let got: Vec<usize> = rows
+                .iter()
+                .map(|r| match Value::from_field_value(&r[&Arc::<str>::from("o")]) {
+                    Value::Int { v, .. } => v as usize,
+                    Value::Str(s) => s.trim_start_matches('v').parse().unwrap_or(usize::MAX),
+                    _ => usize::MAX,
+                })
+                .collect();
+            if got == want {
+                Verdict::Pass
+            } else {
+                Verdict::Fail {
+                    sig: format!("c07:e2e-sequence-verdicts-differ|{}", op.name()),
+                    msg: format!("operator {} over the pairs {pairs:?} (left, right) in one execution: engine kept vertices {got:?}, the definition keeps {want:?}\nquery:\n{text}", op.name()),
+                }
+            }
+        }
+        ExecOutcome::ArgError(e) => Verdict::Discard(format!("args-rejected:{}", first_line(&e).chars().take(30).collect::<String>())),
+        ExecOutcome::Panic(p, _) => Verdict::Fail {
+            sig: format!("c07:e2e-panic|{}|{}", op.name(), p.file()),
+            msg: format!("{}\npairs {pairs:?}\nquery:\n{text}", p.render()),
+        },
+    }
+}
+
 pub fn c07(ctx: &CheckCtx) -> i32 {
     if ctx.replay.is_some() {
-        return replay_with(ctx, &|sub, b| {
-            if sub == "c07-e2e" { c07_e2e_case(b, &mut Stats::default(), false) } else { c07_direct_case(b, &mut Stats::default(), false) }
+        return replay_with(ctx, &|sub, b| match sub {
+            "c07-e2e" => c07_e2e_case(b, &mut Stats::default(), false),
+            "c07-e2e-sequence" => c07_e2e_sequence_case(b, &mut Stats::default(), false),
+            _ => c07_direct_case(b, &mut Stats::default(), false),
         });
     }
     let mut report = Report::new(
@@ -409,7 +521,9 @@ pub fn c07(ctx: &CheckCtx) -> i32 {
          typed pools (ints incl. random 64-bit patterns, finite floats, strings incl. empty/multibyte, nulls, lists, valid and \
          invalid regexes; right operand often derived from the left: other encoding, neighbour, prefix/suffix), every negated \
          operator also checked as exact complement. End-to-end: the same pairs placed in a one/two-vertex world with the right \
-         operand supplied as variable, tag from the same vertex, or tag from the previous vertex; the row count is the verdict. \
+         operand supplied as variable, tag from the same vertex, or tag from the previous vertex; the row count is the verdict; and \
+         2-5 such pairs for one operator on 2-5 starting vertices of ONE execution (tag from the same vertex), where the kept vertices \
+         must be exactly those whose own pair satisfies the operator, whatever was evaluated before. \
          Non-trivial: encodings differ, value beyond i64, null involved, or strict prefix/suffix/infix; distinct by (op, pair).",
     );
     report.assume("only operand kind combinations the frontend admits are generated (never String < Int; no ordering on lists: listed C09 finding)");
@@ -454,6 +568,12 @@ pub fn c07(ctx: &CheckCtx) -> i32 {
     report.absorb(res, &|b| {
         let (op, l, r) = gen_direct(&mut Choices::new(b));
         json!({"op": op.name(), "left": l.to_json(), "right": r.to_json()})
+    });
+    let cases = ctx.cases(300_000, 3_000_000);
+    let res = search(ctx, "c07-e2e-sequence", cases, 16, 400, c07_e2e_sequence_case);
+    report.absorb(res, &|b| {
+        let (op, l, r) = gen_direct(&mut Choices::new(b));
+        json!({"op": op.name(), "first_left": l.to_json(), "first_right": r.to_json()})
     });
     report.finish()
 }
